@@ -328,6 +328,7 @@ type c11Run struct {
 	w      *c11World
 	taps   bool
 	fresh  bool
+	cur    *c11Node // shape currently installed under the swap store
 	frames []*c11Frame
 	fails  []c11PolicyFail
 	opNo   int
@@ -563,6 +564,7 @@ func c11RunImpl(c *c11Case, taps bool) (results []string, run *c11Run, err error
 		return nil, nil, err
 	}
 	inner := run.buildTop(shape)
+	run.cur = shape
 	var top desync.Store
 	var swap *desync.SwapStore
 	switch c.Top[0] {
@@ -631,9 +633,22 @@ func c11ExecOp(run *c11Run, top desync.Store, swap *desync.SwapStore, op string)
 		if perr != nil {
 			return "", perr
 		}
-		if e := swap.Swap(run.buildTop(shape)); e != nil {
+		oldW, newW := run.cur.writable(), shape.writable()
+		e := swap.Swap(run.buildTop(shape))
+		if (e != nil) != (oldW && !newW) {
+			run.fail("swap/writable-rule", "Swap of a %v-writable store for a %v-writable one returned %v", oldW, newW, e)
+		}
+		if e != nil {
 			return "W0", nil
 		}
+		var old []int
+		run.cur.leaves(&old)
+		for _, k := range old {
+			if !run.w.members[k].closed {
+				run.fail("swap/old-store-not-closed", "Swap succeeded but member %d of the replaced chain %s was not closed", k, run.cur)
+			}
+		}
+		run.cur = shape
 		return "W1", nil
 	}
 	return "", fmt.Errorf("bad op %q", op)
